@@ -397,12 +397,135 @@ def ids_and_copies(n: int, k: int) -> bool:
     return ok
 
 
+# ------------------------------------------------------------------------------------------------
+# message ids under pre-emption: two REAL threads, the switch point inside _new_msg_id chosen by the solver
+# ------------------------------------------------------------------------------------------------
+
+_WARM = []
+
+
+def _preempted_ids(j, k, m_during, m_after, n1=4):
+    """Thread T1 makes n1 calls of the real _new_msg_id; inside its call number j (>= 1, counted from 0) it is pre-empted after k byte-code
+    instructions; while it is suspended thread T2 makes m_during calls; T1 then runs to completion and T2 makes m_after
+    more calls.  -> (ids of T1, ids of T2).  Deterministic: the switch is forced with an opcode-level trace function and
+    events, never left to the OS."""
+    import sys
+    import threading
+    code = pynetdicom2._new_msg_id.__code__
+    ids1, ids2 = [], []
+    paused, resume = threading.Event(), threading.Event()
+    go2a, done2a, go2b = threading.Event(), threading.Event(), threading.Event()
+    state = {'call': -1, 'ops': 0, 'err': None}
+
+    def local_trace(frame, event, arg):
+        if event == 'opcode':
+            if state['call'] == j and state['ops'] == k:
+                paused.set()
+                if not resume.wait(20):
+                    state['err'] = 'resume timeout'
+            state['ops'] += 1
+        return local_trace
+
+    def tracer(frame, event, arg):
+        if event == 'call' and frame.f_code is code:
+            state['call'] += 1
+            # opcode events for every call: CPython 3.12 instruments the code object on the first request, and the frame
+            # that is already running does not see it - T1's call 0 is the warm-up, the switch happens in call j >= 1
+            frame.f_trace_opcodes = True
+            state['ops'] = 0
+            return local_trace
+        return None
+
+    def t1():
+        sys.settrace(tracer)
+        try:
+            for _ in range(n1):
+                ids1.append(pynetdicom2._new_msg_id())
+        except Exception as e:             # noqa
+            state['err'] = 'T1: %r' % (e,)
+        finally:
+            sys.settrace(None)
+            paused.set()                   # never leave the coordinator waiting
+
+    def t2():
+        try:
+            if not go2a.wait(20):
+                return
+            for _ in range(m_during):
+                ids2.append(pynetdicom2._new_msg_id())
+            done2a.set()
+            if not go2b.wait(20):
+                return
+            for _ in range(m_after):
+                ids2.append(pynetdicom2._new_msg_id())
+        except Exception as e:             # noqa
+            state['err'] = 'T2: %r' % (e,)
+            done2a.set()
+
+    if not _WARM:
+        # CPython 3.12 instruments a code object for opcode events on first request and the frames of that first traced
+        # thread do not see it: one throw-away traced thread per process (its ids are its own; they are not checked)
+        def warm():
+            sys.settrace(lambda f, e, a: (setattr(f, 'f_trace_opcodes', True), (lambda *x: None))[1]
+                         if e == 'call' and f.f_code is code else None)
+            try:
+                pynetdicom2._new_msg_id()
+                pynetdicom2._new_msg_id()
+            finally:
+                sys.settrace(None)
+        w = threading.Thread(target=warm)
+        w.start()
+        w.join(20)
+        _WARM.append(True)
+    th1, th2 = threading.Thread(target=t1), threading.Thread(target=t2)
+    th2.start()
+    th1.start()
+    if not paused.wait(20):
+        state['err'] = 'T1 never paused / finished'
+    go2a.set()
+    if not done2a.wait(20):
+        state['err'] = 'T2 stuck'
+    resume.set()
+    th1.join(20)
+    go2b.set()
+    th2.join(20)
+    if state['err'] or th1.is_alive() or th2.is_alive():
+        raise api.HarnessUnsupported('pre-emption scaffold: %s' % (state['err'],))
+    return ids1, ids2
+
+
+@cond(bounds='message ids of the convenience API under pre-emption, REAL threads: thread T1 makes 4 calls of _new_msg_id and '
+             'is suspended inside its second or third call (symbolic) after k = 0..45 byte-code instructions (symbolic: '
+             'every switch point inside the function, also in the middle of a statement); meanwhile thread T2 makes 0..3 '
+             'calls (symbolic), T1 resumes, T2 makes 2 more calls; the ids each thread got must be pairwise distinct '
+             'integers in 1..65535. The schedule is forced (opcode trace + events), never left to the OS',
+      timeout=400)
+def ids_under_preemption(j: int, k: int, m: int) -> bool:
+    """
+    pre: 1 <= j <= 2 and 0 <= k <= 45 and 0 <= m <= 3
+    post: _
+    """
+    from vt import sim
+    j, k, m = pick(j, 1, 2), pick(k, 0, 45), pick(m, 0, 3)
+    with sim._no_tracing():
+        ids1, ids2 = _preempted_ids(j, k, m, 2)
+    ok = len(ids1) == 4 and len(ids2) == m + 2
+    ok = ok and len(set(ids1)) == len(ids1) and len(set(ids2)) == len(ids2)
+    ok = ok and all(type(i) is int and 0 < i <= 65535 for i in ids1 + ids2)
+    deep(ok and j == 2 and k == 20 and m == 2)
+    return ok
+
+
 TRACE_FIELDS = ['wire', 'accepted contexts (association)', 'accepted contexts (provider / decoder)', 'max PDU length',
                 'errors seen by the acceptor', 'provider loop died', 'loop over budget', 'protocol state', 'ARTIM running',
                 'socket held', 'socket closed']
 
 
 def explain(cname, args, famv):
+    if cname == 'ids_under_preemption':
+        ids1, ids2 = _preempted_ids(args['j'], args['k'], args['m'], 2)
+        return 'T1 suspended in call %d after %d instructions while T2 made %d calls: T1 got %r, T2 got %r' % (
+            args['j'] + 1, args['k'], args['m'], ids1, ids2)
     if cname != 'interleaved_live':
         return 'each association must behave exactly as when it runs alone on a fresh entity'
     a_tsf, ending, dt = args['a_tsf'], args['ending'], args['dt']
